@@ -135,6 +135,38 @@ CHECKS = {
          "Timestamps are not compared; link targets outside the copied subtree are compared through the API only.",
          "DESIGN.md 4/C20"),
 }
+# extensions made while strengthening the checks against independently seeded changes (DESIGN.md 9.7)
+EXTRA = {
+ "C01": " Two retained handles to the array are used in turn; bare / NumPy-integer index 0 and append axes outside "
+        "0..rank-1 (NumPy reading or refusal, never an overwrite) are generated.",
+ "C02": " Handles are obtained fresh, cached or two-in-turn; numeric attributes get int-then-fractional writes and "
+        "descriptor attributes are part of the reference model.",
+ "C03": " Names that differ only by Unicode normalisation form, case or blanks, and nested sources repeating a top-level "
+        "name inside link lists, are generated.",
+ "C04": " Owner handles warmed by index / id / name lookups before a delete must not yield the deleted entity afterwards.",
+ "C05": " extend([acceptable..., unacceptable]) must link nothing; re-pointing a slot or list from an entity to its "
+        "id-preserving copy must denote the copy; handles kept since before a mutation are access paths too.",
+ "C06": " Windows that begin before the array are read and written element by element: refused or the NumPy reading.",
+ "C07": " Geometry is written through a fresh descriptor handle and queried through a long-lived one.",
+ "C08": " Exactness is decided per boundary and a start that is bit-identical to a reported sample coordinate is pinned "
+        "to that sample; repeated tick values and calibrated positions / extents arrays are generated.",
+ "C11": " Existing files that are not HDF5 at all (text, bytes, truncated NIX files) must be refused with bytes unchanged.",
+ "C12": " The catalogue includes refusals that depend on prior state (derived names taken, linked descriptors, a kept "
+        "handle after delete_dimensions, later-item faults).",
+ "C13": " After the first round of queries the tree is mutated (unlink, relink, add, delete, id-keeping copy) and "
+        "everything is asked again in the same session.",
+ "C14": " Validation is repeated before every injection in the same session (no state may survive a validation); linked "
+        "tick vectors are resized.",
+ "C16": " Frame handles are single, fresh or two-in-turn; calls whose later row is unacceptable must apply nothing.",
+ "C17": " The writer runs under an advancing clock; generated flush intervals hold one kind of op only; for part of the "
+        "crash points the expected state comes from a second, normally closing writer while the killed one never reads "
+        "its file back.",
+ "C18": " Units in spellings this library would not write (micro signs, blanks) must read unchanged after the upgrade.",
+ "C19": " Handles retained since creation / reopen must report the stored timestamps after every op; forced times "
+        "(second 0, ahead of the clock) are followed by descriptive changes.",
+ "C20": " Link targets are compared by an id-free content digest; sources are also taken through link lists and role "
+        "links; section links inside the copied tree are generated.",
+}
 PENDING = {}
 LEVELS = {"C12": "fault_enumeration", "C18": "fault_enumeration", "C17": "fault_enumeration"}
 
@@ -152,7 +184,8 @@ def main():
                 "evidence_file": "evidence/%s.json" % pid,
                 "replay_cmd_template": "./check %s --replay {path}" % pid,
                 "engine": "pbt-runner",
-                "level_claimed": {"category": LEVELS.get(pid, "exploration"), "text": text, "design_ref": ref},
+                "level_claimed": {"category": LEVELS.get(pid, "exploration"), "text": text + EXTRA.get(pid, ""),
+                                  "design_ref": ref},
                 "level_note": note,
                 "technique": tech,
             })
